@@ -1022,17 +1022,25 @@ def evaluate(ctx, c, status, ibs, mstatus, mbs, wf, consistent, exitc, ao, an, l
     if not metas:
         return
     # acceptable paths of an edited object: itself, aliases / inherited aliases that finally resolve to it
+    alias_names = {}
+    for i, o in enumerate(ao.objs):
+        if o.is_alias:
+            try:
+                alias_names.setdefault(o.final_target.path, set()).add(ao.paths[i])
+            except Exception:  # noqa: BLE001
+                pass
+
     def names_of(path):
-        acc = {path}
-        for ab in (ao,):
-            for i, o in enumerate(ab.objs):
-                if o.is_alias:
-                    try:
-                        if o.final_target.path == path:
-                            acc.add(ab.paths[i])
-                    except Exception:  # noqa: BLE001
-                        pass
-        return acc
+        return {path} | alias_names.get(path, set())
+
+    def routes(paths):
+        """Every path on which one of the objects, or an object enclosing it, can be reached (itself, its aliases, enclosing objects, their aliases)."""
+        out = set()
+        for a in paths:
+            parts = a.split(".")
+            for k in range(1, len(parts) + 1):
+                out |= names_of(".".join(parts[:k]))
+        return out
 
     def subtree(path):
         return [p for p in ao.index if p == path or p.startswith(path + ".")]
@@ -1062,17 +1070,18 @@ def evaluate(ctx, c, status, ibs, mstatus, mbs, wf, consistent, exitc, ao, an, l
             destructive = x.get("expect") in ("OBJECT_REMOVED", "OBJECT_CHANGED_KIND")
             if destructive and x["path"].rpartition(".")[2] in base_names:
                 return True
+            rts = routes(acc)
             for q in [x.get("path", "")] + x.get("touched", []):
                 if not q:
                     continue
-                for a in acc:
-                    if a == q:
+                if q in acc:
+                    return True
+                for r in rts:
+                    if destructive and (r == q or r.startswith(q + ".")):
                         return True
-                    if a.startswith(q + "."):
-                        if destructive:
-                            return True
-                        if x.get("expect") == "CLASS_REMOVED_BASE" and a[len(q) + 1:].split(".")[0] not in own_members.get(q, ()):
-                            return True
+                    if x.get("expect") == "CLASS_REMOVED_BASE" and r.startswith(q + ".") and \
+                            r[len(q) + 1:].split(".")[0] not in own_members.get(q, ()):
+                        return True
         return False
 
     for m in metas:
